@@ -91,3 +91,22 @@ OPS['attrvars'] = async (js, pfx, query, names) => {
     try { rbql.parse_attribute_variables(dec_str(query), dec_str(pfx), dec_list(names), 'table header', d); } catch (e) { if (is_parsing_error(e)) return 'err notfound'; throw e; }
     return enc_varmap(d);
 };
+
+function dec_map(t) { let d = {}; for (const r of base.dec_table(t)) d[r[0]] = {initialize: true, index: parseInt(r[1])}; return d; }
+OPS['joinresolve'] = async (inm, jm, pairs) => {
+    let r;
+    try { r = rbql.resolve_join_variables(dec_map(inm), dec_map(jm), base.dec_table(pairs), []); } catch (e) {
+        if (!is_parsing_error(e)) throw e;
+        const msg = String(e.message);
+        return msg.indexOf('mbiguous') != -1 ? 'err ambiguous' : msg.indexOf('Input table does not have') != -1 ? 'err no-input-field' : msg.indexOf('Join table does not have') != -1 ? 'err no-join-field' : 'err other';
+    }
+    const enc_l = r[0].length ? r[0].map(x => x == 'NR' ? 'N' : /record_a, (\d+)\)/.exec(x)[1]).join(',') : '!';
+    const enc_r = r[1].length ? r[1].map(x => x == -1 ? 'N' : String(x)).join(',') : '!';
+    return 'ok ' + enc_l + ' ' + enc_r;
+};
+OPS['exceptcols'] = async (js, inm, text) => {
+    let r;
+    try { r = rbql.translate_except_expression(dec_str(text), dec_map(inm), [], null); } catch (e) { if (is_parsing_error(e)) return 'err unknown'; throw e; }
+    const m = /^select_except\(record_a, \[([0-9,]*)\]\)$/.exec(r[1]);
+    return 'ok ' + (m[1] ? m[1] : '!');
+};
